@@ -46,6 +46,9 @@ type History struct {
 	Ops  []Op           `json:"ops"`
 	Data []gen.DataSpec `json:"data"`
 	NVar int            `json:"nvar"`
+	// MustFail names members whose body contains, by construction, something that cannot be
+	// contextualized (the generator's failing-body list); executing them must always fail.
+	MustFail []string `json:"must_fail,omitempty"`
 }
 
 // Result of one op.
@@ -368,9 +371,13 @@ func GenData(r *core.Rng, n int) []gen.DataSpec {
 // Gen generates one history over a generated set.
 func Gen(r *core.Rng, o GenOpts) (*History, gen.Set) {
 	set := gen.GenSet(r, o.Set)
-	h := &History{Data: GenData(r, 3), NVar: 8}
+	h := &History{Data: GenData(r, 3), NVar: 8, MustFail: set.MustFail}
 	add := func(op Op) { h.Ops = append(h.Ops, op) }
 	add(Op{Kind: "new", Dst: 0, Name: "root", H: -1})
+	if o.WildOps && r.Intn(6) == 0 {
+		// replace the root handle in its own set before anything is parsed: v0 becomes an orphan
+		add(Op{Kind: "tnew", H: 0, Dst: 7, Name: "root"})
+	}
 	for _, t := range set.Texts {
 		add(Op{Kind: "parse", H: 0, Dst: 0, Text: t})
 	}
@@ -386,6 +393,17 @@ func Gen(r *core.Rng, o GenOpts) (*History, gen.Set) {
 	if o.ExtraDefs && r.Intn(3) == 0 {
 		fn := r.Pick([]string{"fromfile", "m0", "h0"})
 		add(Op{Kind: []string{"parsefiles", "parseglob", "parsefs"}[r.Intn(3)], H: 0, Dst: 0, Name: fn, Text: r.Pick([]string{"<i>file {{$.S0}}</i>", "<p title=\"{{$.S1}}\">f</p>", "static file"})})
+	}
+	if o.WildOps && r.Intn(3) == 0 {
+		// a body for the root handle itself (not a define), often one whose analysis fails
+		body := gen.FailBody(r)
+		if r.Intn(3) == 0 {
+			body = "<p>{{$.S0}}</p>"
+		}
+		add(Op{Kind: "parse", H: 0, Dst: 0, Text: body})
+		for n := 1 + r.Intn(3); n > 0; n-- {
+			add(Op{Kind: []string{"exec", "exechtml"}[r.Intn(2)], H: 0, Dst: -1, Data: r.Intn(len(h.Data))})
+		}
 	}
 	names := append([]string{}, set.Members...)
 	if r.Intn(4) == 0 {
@@ -471,7 +489,14 @@ func Gen(r *core.Rng, o GenOpts) (*History, gen.Set) {
 				nextVar++
 			}
 		case k < 93 && o.WildOps:
-			add(Op{Kind: "csp", H: v, Dst: -1})
+			if r.Bool() {
+				add(Op{Kind: "csp", H: v, Dst: -1})
+			} else {
+				// execute the handle itself, twice
+				kind := []string{"exec", "exechtml"}[r.Intn(2)]
+				add(Op{Kind: kind, H: v, Dst: -1, Data: r.Intn(len(h.Data))})
+				add(Op{Kind: kind, H: v, Dst: -1, Data: r.Intn(len(h.Data))})
+			}
 		default:
 			add(Op{Kind: "exect", H: v, Dst: -1, Name: r.Pick([]string{"nope", "root", name}), Data: r.Intn(len(h.Data))})
 		}
